@@ -5,7 +5,7 @@
 set -u
 patch=$(readlink -f "$1"); prop=$2; shift 2
 d=$(mktemp -d /tmp/govc-mutant.XXXXXX)
-trap '[ -n "$KEEP" ] && { rm -rf "$d/repo"; echo "kept $d/root"; } || rm -rf "$d"' EXIT
+trap '[ -n "${KEEP:-}" ] && { rm -rf "$d/repo"; echo "kept $d/root"; } || rm -rf "$d"' EXIT
 mkdir -p "$d/repo" "$d/root"
 (cd /repo && git ls-files -z --cached --others --exclude-standard | xargs -0 cp --parents -t "$d/repo") 
 cp /verif/KNOWN_FINDINGS.txt "$d/root/" 2>/dev/null
